@@ -9,7 +9,7 @@ use temporal_rs::error::ErrorKind;
 use temporal_rs::options::Unit;
 use temporal_rs::partial::PartialDuration;
 use temporal_rs::{DateDuration, Duration, Sign, TimeDuration};
-use tmc_ref::r3::UNIT_NS;
+use tmc_ref::r3::{self, UNIT_NS};
 use tmc_ref::r4::{self, ALL_MODES};
 use tmc_ref::r5::{self, Fields, LIMIT_NS};
 
@@ -388,6 +388,59 @@ impl Space for RoundTotal {
     }
 }
 
+/// Ties and their neighbours for every (unit, increment), with a non-zero days field next to the
+/// time part: the total (a day counting 24 h) is what is rounded, not the time part alone.
+struct RoundTies {
+    tier: Tier,
+}
+impl Space for RoundTies {
+    fn name(&self) -> String {
+        "c09.round_ties".into()
+    }
+    fn len(&self) -> u64 {
+        7 * 6
+    }
+    fn block(&self) -> u64 {
+        1
+    }
+    fn eval(&self, i: u64, out: &mut Out) {
+        let ix = unrank(i, &[6, 7]);
+        let smallest = 3 + ix[1];
+        let days = [0i128, 1, 2, 3, -1, -3][ix[0]];
+        let unit_ns = r3::UNIT_NS[smallest - 3];
+        for inc in increments_for(smallest, self.tier) {
+            let step = unit_ns * inc as i128;
+            for k in [0i128, 1, 2, 3, 5] {
+                for delta in [-1i128, 0, 1] {
+                    // time part = k steps + half a step (+- 1 ns), carrying the sign of the days field
+                    let sign = if days < 0 { -1 } else { 1 };
+                    let time = sign * (k * step + step / 2 + delta);
+                    if step == 1 && delta != 0 {
+                        continue;
+                    }
+                    let b = r3::balance(time, r3::T_HOUR);
+                    let f: Fields = [0.0, 0.0, 0.0, days as f64, b[1] as f64, b[2] as f64, b[3] as f64, b[4] as f64, b[5] as f64, b[6] as f64];
+                    let Ok(imp) = dur10(f) else { continue };
+                    out.nontrivial += 1;
+                    for largest_opt in [None, Some(3usize), Some(4)] {
+                        let largest = largest_opt.unwrap_or(r5::default_largest(&f).min(smallest));
+                        if largest > smallest {
+                            continue;
+                        }
+                        for mode in ALL_MODES {
+                            let model = r5::round(&f, largest, smallest, inc, mode).map_err(|_| ErrorKind::Range);
+                            let got = call(|| imp.round_with_provider(round_opts(largest_opt.map(funit), Some(funit(smallest)), Some(imode(mode)), Some(inc)), None, &ErrProvider));
+                            out.lockstep("Duration::round(tie battery)", &model, &got, |m, x| dur_fields(x) == *m, || {
+                                vec![("duration", ftext(&f)), ("days_field", days.to_string()), ("largest", largest_opt.map(fname).unwrap_or("absent").to_string()), ("smallest", fname(smallest).to_string()), ("increment", inc.to_string()), ("mode", mode.name().to_string()), ("offset_from_tie_ns", delta.to_string()), ("steps", k.to_string())]
+                            });
+                        }
+                    }
+                }
+            }
+        }
+    }
+}
+
 pub fn spaces(env: &Env) -> Vec<Box<dyn Space>> {
     let (free, cal) = operand_alphabet();
     vec![
@@ -395,6 +448,7 @@ pub fn spaces(env: &Env) -> Vec<Box<dyn Space>> {
         Box::new(Partials),
         Box::new(Pairs { free: free.clone(), cal }),
         Box::new(RoundTotal { durs: free, tier: env.tier }),
+        Box::new(RoundTies { tier: env.tier }),
     ]
 }
 
